@@ -5,14 +5,18 @@ THEOREMS = [
     "C19_checker_sound", "C19_newroute_consistent", "C19_hop_passes_C09",
     "C19_newroute_pays_exact_fees", "C19_get_edge_sound",
     "C19_search_invariant_init", "C19_search_invariant", "C19_search_sound",
+    "C19_chain_stable", "C19_pops_sorted", "C19_findpath_sound",
 ]
 MODULE = "LV.Route.Props"
 TARGETS = ["theories/Route/Props.vo", "theories/Route/Exec.vo",
-           "theories/Route/Examples.vo"]
+           "theories/Route/Examples.vo", "theories/Route/DijkstraExec.vo",
+           "theories/Route/DijkstraExamples.vo"]
 HARNESS = ["routing/verif_route_test.go"]
 WARM = [{"pkg": "routing", "files": HARNESS}]
 IMPORTS = ("From Coq Require Import List ZArith NArith.\nImport ListNotations.\n"
            "From LV Require Import Route.Model Route.Exec.\n")
+SIMPORTS = ("From Coq Require Import List ZArith NArith.\nImport ListNotations.\n"
+            "From LV Require Import Route.Model Route.Exec Route.DijkstraExec.\n")
 MAX_PAYLOAD = 1300
 SUBCHECK = {0: "route_valid rejects the returned route",
             1: "model new_route differs from the returned route",
@@ -20,7 +24,16 @@ SUBCHECK = {0: "route_valid rejects the returned route",
             3: "a path edge is not a policy of the graph",
             4: "replay of the relaxations along the path rejected / different totals",
             5: "lastHopPayloadSize differs from the real final-hop payload",
-            6: "edgeUnifier.getEdge differs from the model"}
+            6: "edgeUnifier.getEdge differs from the model",
+            7: "search replay: an observed event is not a possible step of the Dijkstra model",
+            8: "search replay: end of the search / unravelled chain differs from what findPath returned",
+            9: "search replay: a domain guard, key monotonicity or pop order failed on an observed step"}
+
+
+def subcheck_name(i):
+    if i >= 100:
+        return "search replay stuck at event %d" % (i - 100)
+    return SUBCHECK.get(i, "?")
 
 
 def zt(n):
@@ -67,6 +80,80 @@ def case_term(c):
         zt(c["amt"]), zt(c["src"]), zt(c["dst"]),
         clist([edge_term(e) for e in c["path"]]), route, zlist(c["sizes"]),
         zt(c["lastsize"]), zlist(c["hopfees"]), zt(c["totfees"]), zt(c["recv"]))
+
+
+def restr_term(c):
+    return "(mkRestr %s %s %s %s %s %s)" % (
+        zt(c["feelimit"]), zt(c["cltvlimit"]), zlist(c["outchans"]),
+        "None" if c["lasthop"] < 0 else "(Some %s)" % zt(c["lasthop"]),
+        zlist(c["ignnodes"]), pairs(c["ignpairs"]))
+
+
+def scase_term(c):
+    """Search-trace case for Route/DijkstraExec.v."""
+    evs = []
+    for e in c["evs"]:
+        if e[0] == 0:
+            evs.append("EvPivot %s" % zt(e[1]))
+        else:
+            evs.append("EvProbe %s %s %s %s %s" % tuple(zt(x) for x in e[1:6]))
+    if c["kind"] == "route":
+        res = "(Some %s)" % clist([edge_term(e) for e in c["path"]])
+    else:
+        res = "None"
+    return "SCase %s %s %s %s %s %s %s %s %s %s %s %s" % (
+        clist([edge_term(e) for e in c["edges"]]), zlist(c.get("hintchans") or []),
+        env_term(c), restr_term(c), zt(c["amt"]), zt(c["src"]), zt(c["dst"]),
+        zt(c["lastsize"]), zt(c["attempt"]), zt(c["minprobbits"]), clist(evs), res)
+
+
+def search_predicate(c):
+    """Chain stability as far as it is observable from outside findPath, on the
+    implementation's own trace (independent of the model): no node is
+    expanded twice, the source is never expanded, the nodes of the returned
+    route were finalised successor-first, and the amount the route puts on
+    every channel is exactly an amount processEdge evaluated for that channel
+    direction while the hop's head was the pivot (i.e. the amounts newRoute
+    recomputed are amounts that were validated against the pivot's entry)."""
+    bad = []
+    evs = c.get("evs") or []
+    pivots = [e[1] for e in evs if e[0] == 0]
+    if not pivots:
+        return ["no expansion recorded"]
+    if pivots[0] != c["dst"]:
+        bad.append("first expanded node %d is not the target %d" % (pivots[0], c["dst"]))
+    if len(set(pivots)) != len(pivots):
+        dup = sorted({v for v in pivots if pivots.count(v) > 1})
+        bad.append("node(s) %s expanded more than once (a popped node was pushed again)" % dup)
+    if c["src"] in pivots[1:]:
+        bad.append("the source %d was expanded" % c["src"])
+    if c["kind"] != "route":
+        return bad
+    # probes grouped by the pivot during which they happened
+    cur, probes = None, {}
+    for e in evs:
+        if e[0] == 0:
+            cur = e[1]
+        else:
+            if e[2] != cur:
+                bad.append("processEdge for %d->%d while the pivot is %s" % (e[1], e[2], cur))
+            probes.setdefault((e[1], e[2]), []).append(e[3])
+    hops = c["hops"]
+    carried = [c["totalamt"]] + [h["amt"] for h in hops[:-1]]
+    prev = c["src"]
+    order = []
+    for h, a in zip(hops, carried):
+        if a not in probes.get((prev, h["to"]), []):
+            bad.append("route sends %d over %d->%d but processEdge never evaluated that amount "
+                       "there (evaluated: %s)" % (a, prev, h["to"], probes.get((prev, h["to"]), [])))
+        if h["to"] not in pivots:
+            bad.append("route passes node %d which was never finalised" % h["to"])
+        else:
+            order.append(pivots.index(h["to"]))
+        prev = h["to"]
+    if order != sorted(order, reverse=True):
+        bad.append("nodes of the route were not finalised successor-first: %s" % order)
+    return bad
 
 
 # ---------------------------------------------------------------------------
@@ -224,8 +311,12 @@ def run(ctx):
     pr = ctx.proof_stage(MODULE, THEOREMS, TARGETS, extra_trusted=[
         "onion payload sizes are an oracle: the checker is given the byte sizes measured on the "
         "real sphinx path of the returned route",
-        "probability / distance (float64) of findPath is not modelled: soundness only; the "
-        "probability source enters the model through the ignore sets (probability 0)",
+        "float64 probability / getProbabilityBasedDist enter the Dijkstra theorems as the abstract "
+        "structure keyops with the laws keyops_ok (total order, p*e <= p for 0 <= e <= 1, distance "
+        "monotone in weight and antitone in probability) = monotonicity of IEEE-754 round-to-nearest "
+        "operations; hypothesis of C19_chain_stable / C19_pops_sorted / C19_findpath_sound, proved "
+        "for the exact instance ZK and checked on every replayed step for float64 (Coq primitive floats)",
+        "container/heap is modelled as: Pop returns some entry that is minimal w.r.t. distanceHeap.Less",
         "C19_hop_passes_C09 is stated against Policy.Model (C09); height/bandwidth/update "
         "availability at forwarding time are hypotheses of that theorem"])
     env = {}
@@ -260,6 +351,17 @@ def run(ctx):
                 ctx.violation("impl_violates_predicate", "C19_checker_sound",
                               {"case": c, "violated_clauses": f},
                               signature="route %s: %s" % (c["variant"], f[0]))
+    # (3b) chain stability as observable on the implementation's search trace
+    traced = [c for c in rows if c["kind"] in ("route", "noroute") and c.get("evs")]
+    nsfail = 0
+    for c in traced:
+        f = search_predicate(c)
+        if f:
+            nsfail += 1
+            if nsfail <= 3:
+                ctx.violation("impl_violates_predicate", "C19_chain_stable",
+                              {"case": c, "violated_clauses": f},
+                              signature="search %s: %s" % (c["variant"], f[0].split("(")[0][:60]))
     # (4) correspondence
     checked = [c for c in rows if c["kind"] in ("route", "getedge")]
     terms = [case_term(c) for c in checked]
@@ -273,6 +375,22 @@ def run(ctx):
         ctx.violation("correspondence_mismatch", "Route.Exec.check_case",
                       {"case": c, "failed_subchecks": {str(i): SUBCHECK.get(i, "?") for i in sub}},
                       signature="route mismatch " + ",".join(str(i) for i in sub),
+                      failing_input=True)
+    # (4b) replay of the recorded search on the Dijkstra model (float64 = Coq
+    # primitive floats): every expansion is a minimal pop, every processEdge
+    # call is the model's relaxation, the unravelled chain is the returned path
+    sterms = [scase_term(c) for c in traced]
+    sok, sbad, slogs = coq_mismatches(ctx.uid() + "s", SIMPORTS, sterms, scope="Z_scope",
+                                      mism="smismatches",
+                                      shard=max(40, len(sterms) // (2 * NCPU) + 1))
+    if not sok:
+        ctx.violation("correspondence_mismatch", "Route.DijkstraExec (model evaluation failed)",
+                      {"logs": slogs}, signature="search-model-eval", failing_input=False)
+    for ci, sub in sbad[:3]:
+        c = traced[ci]
+        ctx.violation("correspondence_mismatch", "Route.DijkstraExec.check_scase",
+                      {"case": c, "failed_subchecks": {str(i): subcheck_name(i) for i in sub}},
+                      signature="search mismatch " + ",".join(str(i) for i in sub if i < 100),
                       failing_input=True)
     if not pr["ok"] and not ctx.violations:
         ctx.violation("proof_broken", ", ".join(pr["broken"]) or "Route build",
@@ -292,11 +410,22 @@ def run(ctx):
         "traces_validated_against_impl": len(checked),
         "predicate_failures": nfail,
         "correspondence_mismatches": len(bad),
+        "search_traces_replayed": len(traced),
+        "search_traces_without_route": sum(1 for c in traced if c["kind"] == "noroute"),
+        "search_predicate_failures": nsfail,
+        "search_replay_mismatches": len(sbad),
+        "search_expansions": sum(sum(1 for e in c["evs"] if e[0] == 0) for c in traced),
+        "search_processEdge_calls": sum(sum(1 for e in c["evs"] if e[0] == 1) for c in traced),
         "samples": [{"hops": c["hops"], "totalamt": c["totalamt"], "amt": c["amt"]} for c in routes[:2]],
     })
     ctx.cov.update(st)
     ctx.assumptions += [
         "amounts < 2^63 and fee products < 2^64 (generator domain): Go wrap-around is not modelled",
         "blinded tails are not generated (route hints, self-payments, source != self are)",
-        "chain stability (a popped node is never re-written) is argued in notes/C19.md, not proved; "
-        "it is exercised by subcheck 4 (replay along the returned chain gives the returned totals)"]
+        "C19_chain_stable / C19_findpath_sound hold under the domain guards stated in the theorems "
+        "(probability source answers in [0,1]; amountToSend*delta*15 and the accumulated weight "
+        "< 2^63; unsigned policy fields) and under keyops_ok = monotonicity of the IEEE-754 float64 "
+        "operations used for the heap key; both are re-checked on every replayed processEdge call "
+        "(subcheck 9); without them the *_refuted examples show a finalised entry being rewritten",
+        "in C19_findpath_sound the edge handed to processEdge is assumed to satisfy offered_b (what "
+        "C19_get_edge_sound proves about getEdge); the replay evaluates offered_b on the real runs"]
